@@ -71,6 +71,7 @@ ExpectedRecord(r) ==
     [] r.op = "new" /\ "new" \in cfg.se -> [m |-> SpanMeta(r.name), scope |-> Append(Anc(Parent(r)), n + 1), tok |-> 1, kind |-> "new"]
     [] r.op = "enter" /\ "enter" \in cfg.se -> [m |-> SpanMeta(r.name), scope |-> Anc(r.s), tok |-> 2, kind |-> "enter"]
     [] r.op = "exit" /\ "exit" \in cfg.se -> [m |-> SpanMeta(r.name), scope |-> Anc(r.s), tok |-> 3, kind |-> "exit"]
+    [] r.op = "drop" /\ "entered" \in DOMAIN r /\ r.entered -> None       \* the span is still entered: nothing closes yet
     [] r.op = "drop" /\ "close" \in cfg.se -> [m |-> SpanMeta(r.name), scope |-> Anc(r.s), tok |-> 4, kind |-> "close"]
     [] OTHER -> None
 
@@ -94,9 +95,23 @@ OneRecord(ws, e) ==
 \* record of its own, complete, BEFORE the outer one; under a scoped default the nested lookup is handed the no-op collector
 \* (the dispatcher's re-entrancy guard) and only the outer record appears.
 NestedRecord(r) == [m |-> [lvl |-> 3, tgt |-> "a"], scope |-> Anc(Cur(r.t)), tok |-> r.n + 6000, kind |-> "event"]
+\* an exit that closes the span (its last handle went while it was entered): the configured lifecycle points `exit` and
+\* `close` of that span, each a complete record, in this order
+ClosingExit(r) == r.op = "exit" /\ "closing" \in DOMAIN r /\ r.closing
+ClosingExitOk(r) ==
+  LET ex == [m |-> SpanMeta(r.name), scope |-> Anc(r.s), tok |-> 3, kind |-> "exit"]
+      cl == [m |-> SpanMeta(r.name), scope |-> Anc(r.s), tok |-> 4, kind |-> "close"]
+      w3 == SelectSeq(r.writes, LAMBDA w : w.toks = <<3>>)
+      w4 == SelectSeq(r.writes, LAMBDA w : w.toks # <<3>>) IN
+  /\ ~("panicked" \in DOMAIN r /\ r.panicked # "")
+  /\ IF "exit" \in cfg.se THEN OneRecord(w3, ex) ELSE w3 = << >>
+  /\ IF "close" \in cfg.se THEN OneRecord(w4, cl) ELSE w4 = << >>
+  /\ r.writes = w3 \o w4
+  /\ r.nometa = 0
 RecordOk(r) ==
   LET e == ExpectedRecord(r) IN
-  IF e.tok = 0 \/ ("aborted" \in DOMAIN r /\ r.aborted) THEN r.writes = << >>          \* nothing to write (an aborted format writes nothing)
+  IF ClosingExit(r) THEN ClosingExitOk(r)
+  ELSE IF e.tok = 0 \/ ("aborted" \in DOMAIN r /\ r.aborted) THEN r.writes = << >>          \* nothing to write (an aborted format writes nothing)
   ELSE IF "nested" \in DOMAIN r /\ r.nested /\ cfg.global THEN
     LET ne == NestedRecord(r)
         inner == SelectSeq(r.writes, LAMBDA w : w.toks = <<ne.tok>>)
